@@ -498,7 +498,16 @@ def main():
     for h, r in sorted(results.items()):
         spec = sel.get(h) or vsel.get(h) or {}
         solver_total += r.get("solver_s") or 0
+        # Kani's assert! assumes its condition afterwards: once an obligation fails, the obligations that
+        # follow it in the same harness are only checked on the executions where it held. If an obligation of
+        # ANOTHER property failed in this harness, this property's SUCCESSes there are not trustworthy.
+        foreign_fail = [f["obligation"] for f in r["failures"] if re.match(r"C\d\d\.", f["obligation"]) and not f["obligation"].startswith(prop + ".") and prop not in spec.get("shared", {}).get(f["obligation"], [])]
+        own_fail = [f for f in r["failures"] if f["obligation"] not in foreign_fail]
+        if foreign_fail and not own_fail:
+            undecided.append("%s: obligation(s) %s of another property failed in this shared harness; the obligations of %s that follow them are masked (Kani assumes an assertion after checking it) and count as not decided" % (h, ", ".join(sorted(set(foreign_fail))[:4]), prop))
         for oid, st in sorted(r["obligations"].items()):
+            if foreign_fail and st == "SUCCESS":
+                st = "UNDETERMINED"
             own = not re.match(r"C\d\d\.", oid) or oid.startswith(prop + ".") or prop in spec.get("shared", {}).get(oid, [])
             if not own:
                 continue  # obligation of another property hosted by a shared harness
